@@ -9,6 +9,8 @@ import (
 	"io"
 	"math/rand/v2"
 	"net"
+	"net/http"
+	"net/url"
 	"os"
 	"regexp"
 	"runtime"
@@ -17,6 +19,7 @@ import (
 	"sync/atomic"
 	"time"
 
+	"github.com/gorilla/websocket"
 	"github.com/pion/rtp"
 
 	"github.com/bluenviron/gortsplib/v5/pkg/base"
@@ -32,6 +35,8 @@ type Scenario struct {
 	Cfg     Cfg           `json:"cfg"`
 	GoodUDP bool          `json:"good_udp"`
 	Peers   []HostilePlan `json:"peers"`
+
+	PubBurst int `json:"pub_burst,omitempty"` // packets the publisher writes per media and tick (default 1)
 }
 
 // HostilePlan is what one hostile peer does.
@@ -39,10 +44,25 @@ type HostilePlan struct {
 	Label   string   `json:"label"`
 	Raw     bool     `json:"raw,omitempty"`      // plain TCP even when the server is rtsps
 	B64     bool     `json:"b64,omitempty"`      // HTTP tunnel: a GET and a POST connection; chunks go base64-encoded into the POST
-	Chunks  [][]byte `json:"chunks"`             // {{SID}} = last session id seen on this peer, {{GP}} / {{GP1}} = the good client's UDP ports
+	WS      bool     `json:"ws,omitempty"`       // WebSocket tunnel: correct handshake, chunks go as binary messages
+	Chunks  [][]byte `json:"chunks"`             // {{SID}} = last session id seen on this peer, {{GP}} / {{GP1}} = the good client's UDP ports, {{HP}} / {{HP1}} = this peer's own UDP ports
 	Drain   bool     `json:"drain"`              // read what the server sends
 	Silent  bool     `json:"silent"`             // after the last chunk stay connected and silent (else close)
 	PauseMs int      `json:"pause_ms,omitempty"` // pause between chunks
+
+	BindUDP bool      `json:"bind_udp,omitempty"` // bind a UDP port pair ({{HP}}, {{HP1}}) the peer can send from
+	UDP     []UDPSend `json:"udp,omitempty"`      // datagrams sent after the chunks, from the bound ports to the server's UDP ports
+
+	Flood      int      `json:"flood,omitempty"`       // after the chunks: this many requests in a tight loop …
+	FloodReqs  [][]byte `json:"flood_reqs,omitempty"`  // … taken in turn from this list
+	FloodDrain string   `json:"flood_drain,omitempty"` // while flooding the peer reads "fast", "slow" or not at all ("none")
+}
+
+// UDPSend is one datagram of a hostile peer.
+type UDPSend struct {
+	FromRTCP bool   `json:"from_rtcp,omitempty"` // sent from the peer's RTCP port (else RTP port)
+	ToRTCP   bool   `json:"to_rtcp,omitempty"`   // sent to the server's RTCP port (else RTP port)
+	Data     []byte `json:"data"`
 }
 
 // ScenarioResult is what a child process reports for one scenario.
@@ -67,7 +87,10 @@ type publisher struct {
 	sent atomic.Int64
 }
 
-func startPublisher(ts *testServer) *publisher {
+func startPublisher(ts *testServer, burst int) *publisher {
+	if burst < 1 {
+		burst = 1
+	}
 	p := &publisher{ts: ts, stop: make(chan struct{}), done: make(chan struct{})}
 	go func() {
 		defer close(p.done)
@@ -80,16 +103,18 @@ func startPublisher(ts *testServer) *publisher {
 				return
 			case <-tk.C:
 			}
-			seq++
-			ts.stream.WritePacketRTP(ts.stream.Desc.Medias[0], &rtp.Packet{
-				Header:  rtp.Header{Version: 2, PayloadType: 96, SequenceNumber: seq, Timestamp: uint32(seq) * 360},
-				Payload: []byte{0x41, 1, 2, 3, 4},
-			})
-			ts.stream.WritePacketRTP(ts.stream.Desc.Medias[1], &rtp.Packet{
-				Header:  rtp.Header{Version: 2, PayloadType: 0, SequenceNumber: seq, Timestamp: uint32(seq) * 32},
-				Payload: []byte{1, 2, 3, 4},
-			})
-			p.sent.Add(1)
+			for k := 0; k < burst; k++ {
+				seq++
+				ts.stream.WritePacketRTP(ts.stream.Desc.Medias[0], &rtp.Packet{
+					Header:  rtp.Header{Version: 2, PayloadType: 96, SequenceNumber: seq, Timestamp: uint32(seq) * 360},
+					Payload: []byte{0x41, 1, 2, 3, 4},
+				})
+				ts.stream.WritePacketRTP(ts.stream.Desc.Medias[1], &rtp.Packet{
+					Header:  rtp.Header{Version: 2, PayloadType: 0, SequenceNumber: seq, Timestamp: uint32(seq) * 32},
+					Payload: []byte{1, 2, 3, 4},
+				})
+				p.sent.Add(1)
+			}
 		}
 	}()
 	return p
@@ -354,78 +379,138 @@ type peerOutcome struct {
 
 func runHostile(ts *testServer, plan *HostilePlan, goodPorts [2]int, limit time.Duration) peerOutcome {
 	out := peerOutcome{label: plan.Label}
-	var nc net.Conn
-	var err error
-	if plan.Raw || !ts.cfg.TLS {
-		nc, err = net.DialTimeout("tcp", ts.addr, 2*time.Second)
-	} else {
-		nc, err = ts.dial()
+	dialOne := func() (net.Conn, error) {
+		if plan.Raw || !ts.cfg.TLS {
+			return net.DialTimeout("tcp", ts.addr, 2*time.Second)
+		}
+		return ts.dial()
 	}
+	nc, err := dialOne()
 	if err != nil {
 		out.closedBy = "dial:" + err.Error()
 		return out
 	}
 	defer nc.Close()
-	wc := nc // where chunks are written
-	var post net.Conn
-	if plan.B64 {
+
+	// the peer's own UDP ports
+	var urtp, urtcp *net.UDPConn
+	hp := 0
+	if plan.BindUDP {
+		urtp, urtcp, hp, err = udpPair()
+		if err == nil {
+			defer urtp.Close()
+			defer urtcp.Close()
+		}
+	}
+
+	// how the peer writes a chunk and reads what the server sends
+	write := func(b []byte) error {
+		nc.SetWriteDeadline(time.Now().Add(3 * time.Second))
+		_, err := nc.Write(b)
+		return err
+	}
+	read := func(buf []byte) ([]byte, error) {
+		n, err := nc.Read(buf)
+		return buf[:n], err
+	}
+	switch {
+	case plan.B64:
 		cookie := fmt.Sprintf("c%d", rand.Int64())
 		nc.Write(httpGetReq(cookie))
 		nc.SetReadDeadline(time.Now().Add(2 * time.Second))
 		buf := make([]byte, 4096)
 		nc.Read(buf)
+		nc.SetReadDeadline(time.Time{})
 		time.Sleep(20 * time.Millisecond)
-		if plan.Raw || !ts.cfg.TLS {
-			post, err = net.DialTimeout("tcp", ts.addr, 2*time.Second)
-		} else {
-			post, err = ts.dial()
-		}
-		if err == nil {
+		post, perr := dialOne()
+		if perr == nil {
 			defer post.Close()
 			post.Write(httpPostReq(cookie))
-			wc = post
+			write = func(b []byte) error {
+				post.SetWriteDeadline(time.Now().Add(3 * time.Second))
+				_, err := post.Write([]byte(base64.StdEncoding.EncodeToString(b)))
+				return err
+			}
+		}
+	case plan.WS:
+		u, _ := url.Parse("ws://" + ts.addr + "/")
+		nc.SetDeadline(time.Now().Add(3 * time.Second))
+		wc, _, werr := websocket.NewClient(nc, u, http.Header{"Sec-WebSocket-Protocol": {"rtsp.onvif.org"}}, 0, 0)
+		nc.SetDeadline(time.Time{})
+		if werr != nil {
+			out.closedBy = "ws-handshake:" + werr.Error()
+			return out
+		}
+		write = func(b []byte) error {
+			nc.SetWriteDeadline(time.Now().Add(3 * time.Second))
+			return wc.WriteMessage(websocket.BinaryMessage, b)
+		}
+		read = func(_ []byte) ([]byte, error) {
+			_, b, err := wc.ReadMessage()
+			return b, err
 		}
 	}
+
+	// background reader: "fast", "slow" or none
+	var mu sync.Mutex
 	sid := "00000000000000000000000000000000"
-	var inbuf []byte
-	drain := func(d time.Duration) bool {
-		// read what arrives within d; true when the server closed the connection
-		deadline := time.Now().Add(d)
-		buf := make([]byte, 64*1024)
-		for {
-			nc.SetReadDeadline(deadline)
-			n, err := nc.Read(buf)
-			out.bytesIn += n
-			if n > 0 {
-				inbuf = append(inbuf, buf[:n]...)
-				if len(inbuf) > 8192 {
-					inbuf = inbuf[len(inbuf)-4096:]
+	var closed atomic.Bool
+	var responses atomic.Int64
+	var mode atomic.Int32 // 0 fast, 1 slow, 2 paused
+	readerDone := make(chan struct{})
+	if plan.Drain {
+		go func() {
+			defer close(readerDone)
+			buf := make([]byte, 64*1024)
+			var inbuf []byte
+			for {
+				for mode.Load() == 2 {
+					time.Sleep(2 * time.Millisecond)
 				}
-				if m := sessRe.FindAllSubmatch(inbuf, -1); len(m) > 0 {
-					sid = string(m[len(m)-1][1])
+				if mode.Load() == 1 {
+					time.Sleep(3 * time.Millisecond)
+				}
+				b, err := read(buf)
+				if len(b) > 0 {
+					mu.Lock()
+					out.bytesIn += len(b)
+					inbuf = append(inbuf, b...)
+					if len(inbuf) > 8192 {
+						inbuf = inbuf[len(inbuf)-4096:]
+					}
+					if m := sessRe.FindAllSubmatch(inbuf, -1); len(m) > 0 {
+						sid = string(m[len(m)-1][1])
+					}
+					mu.Unlock()
+					responses.Add(int64(bytes.Count(b, []byte("RTSP/1.0 "))))
+				}
+				if err != nil {
+					closed.Store(true)
+					return
 				}
 			}
-			if err != nil {
-				if ne, ok := err.(net.Error); ok && ne.Timeout() {
-					return false
-				}
-				return true
-			}
-		}
+		}()
+	} else {
+		close(readerDone)
 	}
-	for _, ch := range plan.Chunks {
-		b := bytes.ReplaceAll(ch, []byte("{{SID}}"), []byte(sid))
+	subst := func(ch []byte) []byte {
+		mu.Lock()
+		cur := sid
+		mu.Unlock()
+		b := bytes.ReplaceAll(ch, []byte("{{SID}}"), []byte(cur))
 		b = bytes.ReplaceAll(b, []byte("{{GP}}"), []byte(itoa(goodPorts[0])))
 		b = bytes.ReplaceAll(b, []byte("{{GP1}}"), []byte(itoa(goodPorts[0]+1)))
-		if plan.B64 {
-			b = []byte(base64.StdEncoding.EncodeToString(b))
-		}
-		wc.SetWriteDeadline(time.Now().Add(3 * time.Second))
-		if _, err := wc.Write(b); err != nil {
+		b = bytes.ReplaceAll(b, []byte("{{HP}}"), []byte(itoa(hp)))
+		b = bytes.ReplaceAll(b, []byte("{{HP1}}"), []byte(itoa(hp+1)))
+		return b
+	}
+	for _, ch := range plan.Chunks {
+		if err := write(subst(ch)); err != nil {
 			break
 		}
 		if plan.Drain {
-			if drain(15 * time.Millisecond) {
+			time.Sleep(15 * time.Millisecond)
+			if closed.Load() {
 				out.closedBy = "server"
 				return out
 			}
@@ -434,13 +519,62 @@ func runHostile(ts *testServer, plan *HostilePlan, goodPorts [2]int, limit time.
 			time.Sleep(time.Duration(plan.PauseMs) * time.Millisecond)
 		}
 	}
+	// datagrams from the negotiated address
+	if urtp != nil {
+		rtpPort, rtcpPort := ts.s.VerifUDPPorts()
+		for _, d := range plan.UDP {
+			from := urtp
+			if d.FromRTCP {
+				from = urtcp
+			}
+			to := rtpPort
+			if d.ToRTCP {
+				to = rtcpPort
+			}
+			if to != 0 {
+				from.WriteToUDP(d.Data, &net.UDPAddr{IP: net.IPv4(127, 0, 0, 1), Port: to})
+			}
+			time.Sleep(time.Millisecond)
+		}
+	}
+	// request flood on the same connection
+	if plan.Flood > 0 && len(plan.FloodReqs) > 0 {
+		switch plan.FloodDrain {
+		case "slow":
+			mode.Store(1)
+		case "none":
+			mode.Store(2)
+		}
+		before := responses.Load()
+		sent := 0
+		for i := 0; i < plan.Flood && !closed.Load(); i++ {
+			req := plan.FloodReqs[i%len(plan.FloodReqs)]
+			if err := write(subst(req)); err != nil {
+				break
+			}
+			if len(req) > 0 && req[0] != 0x24 {
+				sent++
+			}
+		}
+		mode.Store(0)
+		// the server is not idle while it still works on what was sent: wait for the answers
+		// (or the end of the connection) before the silence is timed
+		for t1 := time.Now(); plan.Drain && !closed.Load() && responses.Load()-before < int64(sent) && time.Since(t1) < 12*time.Second; {
+			time.Sleep(5 * time.Millisecond)
+		}
+	}
 	if !plan.Silent {
 		out.closedBy = "self"
+		nc.Close()
+		<-readerDone
 		return out
 	}
 	t0 := time.Now()
 	if plan.Drain {
-		if drain(limit) {
+		for !closed.Load() && time.Since(t0) < limit {
+			time.Sleep(10 * time.Millisecond)
+		}
+		if closed.Load() {
 			out.closedBy = "server"
 		} else {
 			out.closedBy = "timeout"
@@ -451,6 +585,8 @@ func runHostile(ts *testServer, plan *HostilePlan, goodPorts [2]int, limit time.
 		time.Sleep(limit)
 	}
 	out.waited = time.Since(t0)
+	nc.Close()
+	<-readerDone
 	return out
 }
 
@@ -507,7 +643,7 @@ func runScenario(sc *Scenario, accountGoroutines bool) (res ScenarioResult) {
 		}
 	}()
 	base0, _ := libGoroutines()
-	pub := startPublisher(ts)
+	pub := startPublisher(ts, sc.PubBurst)
 	pubStopped := false
 	defer func() {
 		if !pubStopped {
@@ -635,7 +771,16 @@ func runScenario(sc *Scenario, accountGoroutines bool) (res ScenarioResult) {
 		fail("the server keeps serving other connections correctly", "good-client-starved", fmt.Sprintf("no packet reached the well-behaved client for %d ms", g))
 	}
 	res.Stats["good-max-gap-ms"] = int(maxGap.Load())
-	if !good.udp && good.seqErr.Load() != 0 {
+	// packets the server itself refused to queue for the good client (bounded write queue, reported
+	// through OnStreamWriteError) explain gaps: the hammering publisher can overrun a queue of 256
+	ts.mu.Lock()
+	goodDrops := 0
+	if sessBefore > 0 {
+		goodDrops = ts.writeErrs[ts.sessions[sessBefore-1]]
+	}
+	ts.mu.Unlock()
+	res.Stats["good-queue-drops"] = goodDrops
+	if !good.udp && good.seqErr.Load() != 0 && goodDrops == 0 {
 		fail("the server keeps serving other connections correctly", "good-client-gap", fmt.Sprintf("%d sequence number gaps on the TCP stream of the well-behaved client", good.seqErr.Load()))
 	}
 	if good.kaBad.Load() != 0 {
